@@ -150,7 +150,9 @@ TabClauses(e) ==
 
 Clauses(i) == IF Rec[i].k = "tab" THEN TabClauses(Rec[i]) ELSE [kind |-> FALSE]
 Failed(i) == LET c == Clauses(i) IN {n \in DOMAIN c : ~c[n]}
-Key(i) == LET e == Rec[i] IN [k |-> "tab", t |-> e.t, at |-> IF e.t \in KnownTables THEN FirstDiff(e.v, Want(e.t)) ELSE -3]
+(* w: 0 = cold process, 1 / 2 = fresh process in which every name of every cycle was first looked up in every named
+   type (forward / reverse order): the tables must be the same — a lookup leaves no trace in later answers *)
+Key(i) == LET e == Rec[i] IN [k |-> "tab", t |-> e.t, w |-> e.w, at |-> IF e.t \in KnownTables THEN FirstDiff(e.v, Want(e.t)) ELSE -3]
 Nontrivial(i) == TRUE
 
 INSTANCE TraceRun WITH Prop <- "C19", NLines <- NRec
